@@ -74,16 +74,17 @@ Proof.
 Qed.
 Print Assumptions C03_filter_since_is_not_inherited_since.
 
-(* ---------- long-lived sessions: the DELETION of a principal document is not notified ---------- *)
-(* db/change_listener.go changeListener.ProcessFeedEvent returns before notifyKey when the feed event is not a mutation,
-   so an open BLIP connection / continuous feed is not told that a role was PURGED (DeleteRole purge: datastore.Delete)
-   or that its user was DELETED: its next requests are authorized with the user object cached before.  Witnesses:
-   role 0 has channel 2, user 0 holds role 0, a session is opened, role 0 is purged -- the session still sees channel 2
-   where a fresh request does not; user 0 is deleted -- its session still answers.  Reproduced on the real code by the
-   harness (monitor waiter_keys_cover_access_sources, signature session-stale-after-unnotified-delete).  Minimal patch:
-   in ProcessFeedEvent notify the key of a user / role document for deletions as well (take the DocumentType test
-   before the `event.Opcode != sgbucket.FeedOpMutation` return); refreshUser must then close the connection when
-   ReloadUser reports that the user is gone. *)
+(* ---------- long-lived sessions: before e7d0448 the DELETION of a principal document was not notified ---------- *)
+(* REPAIRED in /repo by e7d0448; the statement below is about the code BEFORE the repair ([sstep false] / [srun false]),
+   the model of the current code is [sstep_now] = [sstep true] (C03_session_request_sees_current_access,
+   C03_deleted_user_session_request_fails).
+   db/change_listener.go changeListener.ProcessFeedEvent returned before notifyKey when the feed event was not a
+   mutation, so an open BLIP connection / continuous feed was not told that a role was PURGED (DeleteRole purge:
+   datastore.Delete) or that its user was DELETED: its next requests were authorized with the user object cached before.
+   Witnesses: role 0 has channel 2, user 0 holds role 0, a session is opened, role 0 is purged -- the session still sees
+   channel 2 where a fresh request does not; user 0 is deleted -- its session still answers.  Reproduced on the real code
+   with e7d0448 reverted (monitor waiter_keys_cover_access_sources, signature session-stale-after-unnotified-delete).
+   With the repair the same histories answer with the fresh access / fail (second part of each witness). *)
 Definition purged_role_witness : list sop :=
   [SBase (SetRole 0 (Some [2])); SBase (SetUser 0 None (Some [0])); SOpen 0 0 false; SBase (DelRole 0 true)].
 Definition deleted_user_witness : list sop :=
@@ -91,14 +92,17 @@ Definition deleted_user_witness : list sop :=
 
 Theorem C03_session_request_sees_current_access_with_deletions_refuted :
   (exists ops id chs ros,
-     snd (sstep (srun sinit ops) (SRequest id)) = SView (Some (chs, ros)) /\ In 2 chs /\
-     snd (load_user (ss_st (srun sinit ops)) 0) = OUser (Some ([0], [0]))) /\
+     snd (sstep false (srun false sinit ops) (SRequest id)) = SView (Some (chs, ros)) /\ In 2 chs /\
+     snd (load_user (ss_st (srun false sinit ops)) 0) = OUser (Some ([0], [0])) /\
+     snd (sstep_now (srun_now sinit ops) (SRequest id)) = SView (Some ([0], [0]))) /\
   (exists ops id v,
-     snd (sstep (srun sinit ops) (SRequest id)) = SView (Some v) /\
-     snd (load_user (ss_st (srun sinit ops)) 0) = OUser None).
+     snd (sstep false (srun false sinit ops) (SRequest id)) = SView (Some v) /\
+     snd (load_user (ss_st (srun false sinit ops)) 0) = OUser None /\
+     snd (sstep_now (srun_now sinit ops) (SRequest id)) = SErr).
 Proof.
   split.
-  - exists purged_role_witness, 0, [0; 2; 0], [0]. split; [vm_compute; reflexivity|]. split; [right; left; reflexivity | vm_compute; reflexivity].
-  - exists deleted_user_witness, 0, ([1; 0], []). split; vm_compute; reflexivity.
+  - exists purged_role_witness, 0, [0; 2; 0], [0]. split; [vm_compute; reflexivity|]. split; [right; left; reflexivity|].
+    split; vm_compute; reflexivity.
+  - exists deleted_user_witness, 0, ([1; 0], []). repeat split; vm_compute; reflexivity.
 Qed.
 Print Assumptions C03_session_request_sees_current_access_with_deletions_refuted.
